@@ -190,7 +190,12 @@ fn get_line_info(source: &str, offset: usize) -> (usize, usize, &str) {
         .unwrap_or(source.len());
 
     let line_text = &source[line_start..line_end];
-    let col_num = offset - line_start + 1;
+    // Columns count characters, not bytes, so they agree with what editors display after multi-byte characters.
+    let col_num = source[line_start..]
+        .char_indices()
+        .take_while(|(i, _)| line_start + i < offset)
+        .count()
+        + 1;
 
     (line_num, col_num, line_text)
 }
